@@ -16,8 +16,25 @@ import (
 	"testing/synctest"
 	"time"
 
+	"github.com/libp2p/go-libp2p/core/host"
+	"github.com/libp2p/go-libp2p/core/network"
 	"github.com/libp2p/go-libp2p/core/peer"
+	"github.com/libp2p/go-libp2p/core/protocol"
 )
+
+// a host on which streams to one particular peer never get established (until the caller's context ends)
+type vfStallHost struct {
+	host.Host
+	stall peer.ID
+}
+
+func (h *vfStallHost) NewStream(ctx context.Context, p peer.ID, pids ...protocol.ID) (network.Stream, error) {
+	if p == h.stall {
+		<-ctx.Done()
+		return nil, ctx.Err()
+	}
+	return h.Host.NewStream(ctx, p, pids...)
+}
 
 // C14: random concurrent API workloads on a small real network; the PubSub context of one node is cancelled
 // at a random point (in the middle of calls, validations and deliveries); afterwards every call in progress
@@ -31,7 +48,7 @@ type vfCall struct {
 	err   string
 }
 
-func vfShutdownHistory(t *testing.T, rng *rand.Rand, router int, hammer bool) (rec map[string]any, stuck []string, leaked string, panicked string) {
+func vfShutdownHistory(t *testing.T, rng *rand.Rand, router int, hammer bool, congested bool, heldVal bool) (rec map[string]any, stuck []string, leaked string, panicked string) {
 	var calls []*vfCall
 	var mu sync.Mutex
 	finished := make(chan struct{})
@@ -51,18 +68,25 @@ func vfShutdownHistory(t *testing.T, rng *rand.Rand, router int, hammer bool) (r
 			ctxA, cancelA := context.WithCancel(context.Background())
 			ctxB, cancelB := context.WithCancel(context.Background())
 			defer cancelB()
-			hosts := vfHosts(t, 2)
+			hosts := vfHosts(t, 3)
 			mk := func(ctx context.Context, i int) *PubSub {
 				var ps *PubSub
 				var err error
 				opts := []Option{WithMessageSignaturePolicy(StrictNoSign), WithMessageIdFn(vfMsgID)}
+				var hst host.Host = hosts[i]
+				if congested && i == 0 {
+					// a third peer to which no stream can be opened (the network stalls): its one-slot outbound queue stays
+					// full, so announcements to it are refused and retried
+					hst = &vfStallHost{Host: hosts[0], stall: hosts[2].ID()}
+					opts = append(opts, WithPeerOutboundQueueSize(1))
+				}
 				switch router {
 				case 0:
-					ps, err = NewFloodSub(ctx, hosts[i], opts...)
+					ps, err = NewFloodSub(ctx, hst, opts...)
 				case 1:
-					ps, err = NewRandomSub(ctx, hosts[i], 10, opts...)
+					ps, err = NewRandomSub(ctx, hst, 10, opts...)
 				default:
-					ps, err = NewGossipSub(ctx, hosts[i], opts...)
+					ps, err = NewGossipSub(ctx, hst, opts...)
 				}
 				if err != nil {
 					t.Fatal(err)
@@ -84,6 +108,20 @@ func vfShutdownHistory(t *testing.T, rng *rand.Rand, router int, hammer bool) (r
 			}()
 			time.Sleep(100 * time.Millisecond)
 
+			if congested {
+				// the third peer speaks pubsub as far as identify can tell
+				(&vfMock{t: t, h: hosts[2], a: hosts[0], proto: FloodSubID}).install()
+				if err := hosts[2].Connect(ctxB, peer.AddrInfo{ID: hosts[0].ID(), Addrs: hosts[0].Addrs()}); err != nil {
+					t.Fatal(err)
+				}
+				time.Sleep(100 * time.Millisecond)
+				for _, tn := range []string{"t0", "t1"} {
+					if tp, err := psA.Join(tn); err == nil {
+						tp.Subscribe()
+					}
+				}
+				time.Sleep(2500 * time.Millisecond) // the refused announcements are retried in the meantime
+			}
 			cancelled := false
 			var topics []*Topic
 			var subsA []*Subscription
@@ -112,8 +150,43 @@ func vfShutdownHistory(t *testing.T, rng *rand.Rand, router int, hammer bool) (r
 					mu.Unlock()
 				}()
 			}
+			callCtx := func() (context.Context, context.CancelFunc) {
+				return context.WithTimeout(context.Background(), time.Hour)
+			}
 			nops := 25 + rng.Intn(40)
 			cancelAt := rng.Intn(nops)
+			if heldVal {
+				// publications (with the caller's own long-lived context) sit inside a validator that waits for ITS context to end
+				// when the node's context is cancelled: the validator must be released and the calls must return
+				tv, err := psA.Join("tv")
+				if err == nil {
+					psA.RegisterTopicValidator("tv", func(vctx context.Context, _ peer.ID, m *Message) ValidationResult {
+						if strings.HasPrefix(string(m.Data), "hold") {
+							<-vctx.Done()
+						}
+						return ValidationAccept
+					}, WithValidatorInline(rng.Intn(2) == 0))
+					start("Publish (inside a validator that waits for its context)", func() error {
+						c, cc := callCtx()
+						defer cc()
+						tv.Publish(c, []byte("hold:1"))
+						return nil
+					})
+					if router == 2 {
+						start("AddToBatch (inside a validator that waits for its context)", func() error {
+							var b MessageBatch
+							c, cc := callCtx()
+							defer cc()
+							tv.AddToBatch(c, &b, []byte("hold:2"))
+							return nil
+						})
+					}
+					synctest.Wait()
+					cancelA()
+					cancelled = true
+					cancelAt = -1
+				}
+			}
 			if hammer {
 				// many callers hammering a request / reply API while the context is cancelled at an arbitrary instant
 				var wg sync.WaitGroup
@@ -141,9 +214,6 @@ func vfShutdownHistory(t *testing.T, rng *rand.Rand, router int, hammer bool) (r
 				cancelled = true
 				cancelAt = -1
 				wg.Wait()
-			}
-			callCtx := func() (context.Context, context.CancelFunc) {
-				return context.WithTimeout(context.Background(), time.Hour)
 			}
 			for i := 0; i < nops; i++ {
 				if i == cancelAt {
@@ -416,7 +486,11 @@ func TestVF_Shutdown(t *testing.T) {
 	ncalls, nafter := 0, 0
 	for c := 0; c < ncases; c++ {
 		router := c % 3
-		rec, stuck, leaked, pan := vfShutdownHistory(t, rng, router, c%2 == 1)
+		// the history about to run is kept on disk, so that a crash of the process can be attributed to it
+		if js, err := json.Marshal(map[string]any{"history": c, "router": router, "hammer": c%2 == 1, "congested_peer": c%5 == 4, "seed": os.Getenv("VERIF_SEED")}); err == nil {
+			os.WriteFile(filepath.Join(vfOutDir(t), "c14_last_input.json"), js, 0o644)
+		}
+		rec, stuck, leaked, pan := vfShutdownHistory(t, rng, router, c%2 == 1 && c%6 != 3, c%5 == 4 && c%6 != 3, c%6 == 3)
 		for _, s := range rec["calls"].([]string) {
 			ncalls++
 			if strings.Contains(s, "after=true") {
@@ -440,8 +514,9 @@ func TestVF_Shutdown(t *testing.T) {
 		js, _ := json.MarshalIndent(viol, "", " ")
 		os.WriteFile(filepath.Join(vfOutDir(t), "violation_shutdown.json"), js, 0o644)
 	}
+	os.Remove(filepath.Join(vfOutDir(t), "c14_last_input.json"))
 	cs.extra["api_calls_started"] = ncalls
 	cs.extra["api_calls_started_after_cancellation"] = nafter
-	cs.flush("random concurrent API workloads (Join, Subscribe, Publish, AddToBatch + PublishBatch, Relay and relay-cancel, RegisterTopicValidator with a slow validator, EventHandler + NextPeerEvent, ListPeers / GetTopics, BlacklistPeer, Subscription.Cancel / Next, Topic.Close) on a node of a two-node network with traffic from the other node, on floodsub / randomsub / gossipsub; the node's context is cancelled at a random position (sometimes without letting the bubble settle first); every call started before or after it must have returned one virtual minute later, nothing may panic, and after the other node and the hosts are closed no goroutine of the bubble may remain; " +
+	cs.flush("random concurrent API workloads (Join, Subscribe, Publish, AddToBatch + PublishBatch, Relay and relay-cancel, RegisterTopicValidator with a slow validator, EventHandler + NextPeerEvent, ListPeers / GetTopics, BlacklistPeer, Subscription.Cancel / Next, Topic.Close) on a node of a two-node network with traffic from the other node (every second history with eight callers hammering ListPeers / GetTopics across the cancellation, every sixth with publications held inside a validator that waits for its context, every fifth with a third peer to which no stream can be opened and a one-slot outbound queue, so that announcements are refused and retried), on floodsub / randomsub / gossipsub; the node's context is cancelled at a random position (sometimes without letting the bubble settle first); every call started before or after it must have returned one virtual minute later, nothing may panic, and after the other node and the hosts are closed no goroutine of the bubble may remain; " +
 		"non-trivial = more than 5 API calls in the history; distinct = index")
 }
